@@ -121,6 +121,14 @@ def owned_uses(ctx, rid, m, f, var, kind, consts, chain, depth=0, seen=None, own
             if p.attr == "mapping" and kind == "registry":
                 ok, why = mapping_use_ok(mod, p)
                 ctx.ob(rid, inst, ok, where, why, norm(st)[:120])
+                pp_ = mod.parent.get(p)
+                if ok and isinstance(pp_, (ast.Assign, ast.AnnAssign)) and pp_.value is p:
+                    tg_ = pp_.targets[0] if isinstance(pp_, ast.Assign) and len(pp_.targets) == 1 else getattr(pp_, "target", None)
+                    if isinstance(tg_, ast.Name):
+                        # a local name for the caller's mapping: it is the caller's dict - follow it
+                        n_uses += mapping_alias_uses(ctx, rid, m, f, tg_.id, pp_, chain + [f"{f.short}.{var}"], depth, seen)
+                    else:
+                        ctx.ob(rid, inst, False, where, f"the caller's registry mapping is stored into `{norm(tg_) if tg_ is not None else '?'}`", norm(st)[:120])
                 continue
             if isinstance(p.ctx, ast.Store):
                 ctx.ob(rid, inst, False, where, f"attribute .{p.attr} of the caller's {kind} is assigned", norm(st)[:120])
@@ -187,6 +195,67 @@ def owned_uses(ctx, rid, m, f, var, kind, consts, chain, depth=0, seen=None, own
             continue
         ctx.ob(rid, inst, True, where, f"read-only position ({type(p).__name__})", norm(st)[:100])
     return n_uses
+
+
+SAFE_DICT_READERS = {"len", "list", "tuple", "set", "frozenset", "sorted", "iter", "dict", "bool", "any", "all", "sum", "min", "max", "enumerate",
+                     "reversed", "isinstance", "id", "repr", "str"}
+
+
+def mapping_alias_uses(ctx, rid, m, f, alias, binding_stmt, chain, depth, seen):
+    """`alias = registry.mapping`: every later use of `alias` in f must leave the caller's dict (and its entries) untouched."""
+    key = (f, alias, "mapping-alias")
+    if key in seen:
+        return 0
+    seen.add(key)
+    mod = f.module
+    inst = " -> ".join(chain + [f"{f.short}.{alias}"])
+    rebinds = [n for n in f.own_nodes() if isinstance(n, ast.Name) and n.id == alias and isinstance(n.ctx, (ast.Store, ast.Del))]
+    n = 0
+    if len(rebinds) != 1:
+        ctx.ob(rid, inst, False, loc(f, binding_stmt), f"`{alias}` (the caller's registry mapping) is rebound: cannot follow it", norm(binding_stmt)[:100])
+        return 1
+    scopes = [f] + [g for g in f.all_nested() if m.binding_scope(g, alias) is f]
+    for g in scopes:
+        for node in g.own_nodes():
+            if not (isinstance(node, ast.Name) and node.id == alias and isinstance(node.ctx, ast.Load)):
+                continue
+            n += 1
+            p = g.module.parent.get(node)
+            st = stmt_of(g.module, node)
+            where = loc(g, node)
+            if isinstance(p, ast.Attribute) and p.value is node:
+                ok = p.attr not in DICT_MUTATORS
+                ctx.ob(rid, inst, ok, where, f"mapping query .{p.attr}" if ok else f"the caller's registry mapping is modified by .{p.attr}() through the local name `{alias}`", norm(st)[:120])
+                if ok and p.attr in ("values", "items", "get"):
+                    for nm, bs in g.bindings.items():
+                        for k_, e_, p_ in bs:
+                            if e_ is not None and k_ in ("assign", "iter") and any(x is p for x in ast.walk(e_)):
+                                n += owned_entry_uses(ctx, rid, m, g, nm, chain + [f"{f.short}.{alias}"], depth, seen)
+                continue
+            if isinstance(p, ast.Subscript) and p.value is node:
+                bad = isinstance(p.ctx, (ast.Store, ast.Del))
+                pp = g.module.parent.get(p)
+                bad2 = isinstance(pp, ast.Attribute) and isinstance(pp.ctx, (ast.Store, ast.Del))
+                ctx.ob(rid, inst, not (bad or bad2), where, "mapping entry read" if not (bad or bad2) else
+                       f"an entry of the caller's registry mapping is assigned/deleted through the local name `{alias}`", norm(st)[:120])
+                if not (bad or bad2):
+                    for nm, bs in g.bindings.items():
+                        for k_, e_, p_ in bs:
+                            if e_ is not None and k_ == "assign" and any(x is p for x in ast.walk(e_)):
+                                n += owned_entry_uses(ctx, rid, m, g, nm, chain + [f"{f.short}.{alias}"], depth, seen)
+                continue
+            if isinstance(p, (ast.Call, ast.keyword)):
+                call = p if isinstance(p, ast.Call) else g.module.parent.get(p)
+                nm = norm(call.func).split(".")[-1] if isinstance(call, ast.Call) else ""
+                ok = nm in SAFE_DICT_READERS and not m.callee_funcs(g, call)
+                ctx.ob(rid, inst, ok, where, f"read-only builtin {nm}()" if ok else
+                       f"the caller's registry mapping is handed to `{norm(call.func) if isinstance(call, ast.Call) else '?'}` through the local name `{alias}`", norm(st)[:120])
+                continue
+            if isinstance(p, (ast.Compare, ast.comprehension, ast.For, ast.BoolOp, ast.UnaryOp, ast.If, ast.IfExp, ast.While)):
+                ctx.ob(rid, inst, True, where, "iteration / membership test", norm(st)[:100])
+                continue
+            ctx.ob(rid, inst, False, where, f"the caller's registry mapping flows on through `{alias}` ({type(p).__name__}): not followed", norm(st)[:100])
+    return n
 
 
 def owned_entry_uses(ctx, rid, m, f, var, chain, depth, seen):
